@@ -357,7 +357,13 @@ def h_derive_after(cx, la, lb):
     cx.expect(not hasattr(r, 'e_dvalue') and r.dvalue == 0.0 and r.ddvalue == 0.0, 'derived result carries no stale analysis')
 
 
-HARNESSES = dict(relabel=h_relabel, shift_lemma=h_shift_lemma, rename=h_rename, affine=h_affine, history=h_history, positive=h_positive,
+def h_history_spec(cx, layout, warm):
+    """history against the specification itself (a fresh comparison object would share class-level state): other objects with look-alike layouts
+    (same first / last configuration, length and spacing, holes elsewhere) are analysed first, then the C02 Gamma-level check runs"""
+    c02.h_gamma_level(cx, layout, warm=warm)
+
+
+HARNESSES = dict(history_spec=h_history_spec, relabel=h_relabel, shift_lemma=h_shift_lemma, rename=h_rename, affine=h_affine, history=h_history, positive=h_positive,
                  derive_after=h_derive_after, fft_lemma=c02.h_fft_lemma)
 
 
@@ -394,6 +400,8 @@ def jobs(tier, seed):
     for v in ('arg-over-dict', 'dict-over-global', 'global', 'global-change', 'other-object-first', 'sequence', 'repeat'):
         add('history', layout=A, variant=v)
         add('history', layout=D, variant=v)
+    add('history_spec', layout={'e|r1': [1, 2, 3, 5, 8, 9, 10]}, warm=[{'e|r1': [1, 2, 4, 6, 7, 9, 10]}])
+    add('history_spec', layout={'e|r1': [1, 2, 3, 5, 8, 9, 10], 'e|r2': [2, 4, 6, 8, 10, 12]}, warm=[{'f|r7': [1, 3, 4, 5, 6, 7, 10]}, {'e|r2': [2, 4, 8, 10, 12]}, {'e|r1': [1, 2, 4, 6, 7, 9, 10]}])
     for lay, mode in ((A, 'std'), (B, 'kw'), (C, 's0'), (D, 'std')):
         add('positive', layout=lay, mode=mode)
     if tier == 'thorough':
